@@ -81,10 +81,11 @@ NONE = NoneV()
 
 
 class StrV(Val):
-    """A string: concrete python str, or opaque (value=None) e.g. an f-string message."""
+    """A string: concrete python str, or an f-string with symbolic parts (value=None):
+    parts = [('lit', text) | ('fmt', Val, conversion, format_spec)]."""
 
-    def __init__(self, value=None, term=None):
-        self.value, self.term = value, term
+    def __init__(self, value=None, term=None, parts=None):
+        self.value, self.term, self.parts = value, term, parts
 
     def __repr__(self):
         return 'StrV(%r)' % (self.value,)
@@ -103,6 +104,13 @@ class ListV(Val):
 
     def __init__(self, items):
         self.items = list(items)
+
+
+class DictV(Val):
+    """dict with concrete string keys (insertion ordered); identity = python identity."""
+
+    def __init__(self, items=None):
+        self.items = dict(items or {})
 
 
 class SeqV(Val):
@@ -175,8 +183,8 @@ def truthy(v):
     if isinstance(v, StrV) and v.value is not None:
         return BoolVal(len(v.value) > 0)
     if isinstance(v, (ObjV, FuncV, ClassV)):
-        if isinstance(v, ObjV) and '__truth__' in v.fields:
-            return v.fields['__truth__']
+        if isinstance(v, ObjV) and getattr(v, 'truth_fn', None) is not None:
+            return v.truth_fn()
         return BoolVal(True)
     if isinstance(v, IteV):
         return If(v.c, truthy(v.a), truthy(v.b))
@@ -371,6 +379,7 @@ class Engine:
                 env, loops, finish = harness(path)
                 interp = Interp(self, path, loops, extracted)
                 try:
+                    interp.bind_defaults(env)
                     try:
                         interp.exec_block(extracted.body(), env)
                         outcome = ('return', NONE)
@@ -388,6 +397,38 @@ class Engine:
         return list(self.vcs.values())
 
 
+def values_equal(a, b):
+    """Structural equality of a computed value with a specification value (tuples element-wise, ints by term)."""
+    if isinstance(a, IntV) and isinstance(b, IntV):
+        return And(a.t == b.t, BoolVal(a.tag == b.tag or b.tag is None))
+    if isinstance(a, BoolV) and isinstance(b, BoolV):
+        return a.t == b.t
+    if isinstance(a, (TupleV, ListV)) and type(a) is type(b) and len(a.items) == len(b.items):
+        return And(*[values_equal(x, y) for x, y in zip(a.items, b.items)]) if a.items else BoolVal(True)
+    if isinstance(a, ObjV) and isinstance(b, ObjV) and getattr(a, 'ident', None) is not None and getattr(b, 'ident', None) is not None:
+        return a.ident == b.ident
+    if isinstance(a, StrV) and isinstance(b, StrV):
+        if a.value is not None or b.value is not None:
+            return BoolVal(a.value is not None and a.value == b.value)
+        if a.parts is not None and b.parts is not None and len(a.parts) == len(b.parts):
+            fs = []
+            for x, y in zip(a.parts, b.parts):
+                if x[0] != y[0]:
+                    return BoolVal(False)
+                if x[0] == 'lit':
+                    fs.append(BoolVal(x[1] == y[1]))
+                else:
+                    fs.append(And(values_equal(x[1], y[1]), BoolVal(x[2:] == y[2:])))
+            return And(*fs) if fs else BoolVal(True)
+        return BoolVal(a is b)
+    if isinstance(a, NoneV) and isinstance(b, NoneV):
+        return BoolVal(True)
+    if a is b:
+        return BoolVal(True)
+    return BoolVal(False)
+
+
+
 def assigned_names(stmts):
     names = set()
     for st in stmts:
@@ -401,11 +442,39 @@ class Interp:
     def __init__(self, eng, path, loops, extracted):
         self.eng, self.path, self.loops, self.x = eng, path, loops or {}, extracted
         self.loop_ordinals = {}
+        self.stmt_ordinals = {}     # id(stmt) -> 'If#0', 'Assign#3', ... (ordinal among statements of that type, source order)
         n = 0
+        counts = {}
         for node in ast.walk(extracted.node):
             if isinstance(node, (ast.While, ast.For)):
                 self.loop_ordinals[id(node)] = n
                 n += 1
+        for node in sorted((x for x in ast.walk(extracted.node)
+                            if isinstance(x, (ast.ListComp, ast.GeneratorExp, ast.SetComp, ast.DictComp))),
+                           key=lambda x: (x.lineno, x.col_offset)):
+            t = type(node).__name__
+            self.stmt_ordinals[id(node)] = '%s#%d' % (t, counts.get(t, 0))
+            counts[t] = counts.get(t, 0) + 1
+        for node in sorted((x for x in ast.walk(extracted.node) if isinstance(x, ast.stmt)),
+                           key=lambda x: (x.lineno, x.col_offset)):
+            t = type(node).__name__
+            self.stmt_ordinals[id(node)] = '%s#%d' % (t, counts.get(t, 0))
+            counts[t] = counts.get(t, 0) + 1
+
+    def bind_defaults(self, env):
+        """Parameters the harness leaves unbound get their default expression from the real signature
+        (evaluated in the contract's globals, as at definition time)."""
+        a = self.x.node.args
+        pos = a.posonlyargs + a.args
+        for arg, d in zip(pos[len(pos) - len(a.defaults):], a.defaults):
+            if arg.arg not in env:
+                env[arg.arg] = self.eval(d, {})
+        for arg, d in zip(a.kwonlyargs, a.kw_defaults):
+            if d is not None and arg.arg not in env:
+                env[arg.arg] = self.eval(d, {})
+        for arg in pos + a.kwonlyargs:
+            if arg.arg not in env:
+                raise Unsupported('parameter %r is not bound by the harness and has no default' % arg.arg)
 
     # ---- statements
     def exec_block(self, stmts, env):
@@ -414,6 +483,11 @@ class Interp:
 
     def exec_stmt(self, st, env):
         p = self.path
+        hooks = self.loops.get('before')
+        if hooks:
+            h = hooks.get(self.stmt_ordinals.get(id(st)))
+            if h is not None:
+                h(p, EnvView(env, p))      # `use lemma` hints attached to a statement ordinal
         if isinstance(st, ast.Expr):
             if isinstance(st.value, ast.Constant) and isinstance(st.value.value, str):
                 return
@@ -519,7 +593,7 @@ class Interp:
             spec.on_entry(p, env)
         for nm, f in spec.invariant(EnvView(env, p)):
             p.oblige('inv.entry#%d/%s' % (n, nm), 'inv.entry', f)
-        mod = assigned_names(st.body)
+        mod = assigned_names(st.body) | set(getattr(spec, 'modifies', ()))
         for v in list(mod):
             if v not in env:
                 mod.discard(v)
@@ -563,6 +637,8 @@ class Interp:
                 except _Break:
                     break
             return
+        if isinstance(it, SeqV):
+            it = IterV(it.at, it.length, it.name)
         if not isinstance(it, IterV):
             raise Unsupported('for over %s' % type(it).__name__)
         spec = self.loops.get(n)
@@ -573,7 +649,7 @@ class Interp:
             spec.on_entry(p, env)
         for nm, f in spec.invariant(EnvView(env, p), IntVal(0)):
             p.oblige('inv.entry#%d/%s' % (n, nm), 'inv.entry', f)
-        mod = assigned_names(st.body) | assigned_names([ast.Expr(st.target)])
+        mod = assigned_names(st.body) | assigned_names([ast.Expr(st.target)]) | set(getattr(spec, 'modifies', ()))
         for v in list(mod):
             if v not in env:
                 mod.discard(v)
@@ -585,6 +661,7 @@ class Interp:
         for nm, f in spec.invariant(EnvView(env, p), k):
             p.assume(f)
         if p.branch(k < it.length):
+            p.ghost['k'] = p.ghost['k#%d' % n] = k      # ghost loop index, visible to `use lemma` hooks
             item = it.at(k)
             if it.facts:
                 p.assume(it.facts(k))
@@ -614,18 +691,7 @@ class Interp:
         p.assume(k == it.length)
 
     def values_equal(self, a, b):
-        """Structural equality of a computed value with a specification value (tuples element-wise, ints by term)."""
-        if isinstance(a, IntV) and isinstance(b, IntV):
-            return And(a.t == b.t, BoolVal(a.tag == b.tag or b.tag is None))
-        if isinstance(a, BoolV) and isinstance(b, BoolV):
-            return a.t == b.t
-        if isinstance(a, (TupleV, ListV)) and type(a) is type(b) and len(a.items) == len(b.items):
-            return And(*[self.values_equal(x, y) for x, y in zip(a.items, b.items)]) if a.items else BoolVal(True)
-        if isinstance(a, ObjV) and isinstance(b, ObjV) and getattr(a, 'ident', None) is not None and getattr(b, 'ident', None) is not None:
-            return a.ident == b.ident
-        if a is b:
-            return BoolVal(True)
-        return BoolVal(False)
+        return values_equal(a, b)
 
     def assign(self, tgt, v, env):
         if isinstance(tgt, ast.Name):
@@ -687,16 +753,33 @@ class Interp:
                 return g[node.id]
             if node.id in EXC:
                 return EXC[node.id]
+            if self.loops.get('module_constants'):
+                # module-level simple assignments are read from the real module source (part of the verified text)
+                from . import extract as _x
+                try:
+                    expr = _x.module_assign(self.x.relpath, node.id)
+                except _x.ExtractionError:
+                    expr = None
+                if expr is not None:
+                    return self.eval(expr, {})
             raise Unsupported('unbound name %r' % node.id)
         if isinstance(node, ast.Tuple):
             return TupleV([self.eval(e, env) for e in node.elts])
         if isinstance(node, ast.List):
             return ListV([self.eval(e, env) for e in node.elts])
         if isinstance(node, ast.JoinedStr):
+            parts = []
             for v in node.values:
                 if isinstance(v, ast.FormattedValue):
-                    self.eval(v.value, env)     # evaluated for effects/obligations; text is opaque
-            return StrV(None)
+                    spec = None
+                    if v.format_spec is not None:
+                        if not all(isinstance(x, ast.Constant) for x in v.format_spec.values):
+                            raise Unsupported('computed format spec')
+                        spec = ''.join(x.value for x in v.format_spec.values)
+                    parts.append(('fmt', self.eval(v.value, env), v.conversion, spec))
+                else:
+                    parts.append(('lit', v.value))
+            return StrV(None, parts=parts)
         if isinstance(node, ast.UnaryOp):
             if isinstance(node.op, ast.Not):
                 return BoolV(Not(self.path.truth(self.eval(node.operand, env))))
@@ -757,19 +840,44 @@ class Interp:
             kwargs = {}
             for k in node.keywords:
                 if k.arg is None:
-                    raise Unsupported('**kwargs')
+                    kv = self.eval(k.value, env)
+                    if not isinstance(kv, DictV):
+                        raise Unsupported('**kwargs of a non-concrete dict')
+                    kwargs.update(kv.items)
+                    continue
                 kwargs[k.arg] = self.eval(k.value, env)
             return self.call(f, args, kwargs)
         if isinstance(node, (ast.ListComp, ast.GeneratorExp, ast.SetComp)):
             return self.comprehension(node, env)
         if isinstance(node, ast.Lambda):
-            raise Unsupported('lambda')
+            a = node.args
+            if a.vararg or a.kwarg or a.kwonlyargs or a.defaults or a.posonlyargs:
+                raise Unsupported('lambda with non-positional parameters')
+            names = [x.arg for x in a.args]
+
+            def lam(p2, args, kw, _env=dict(env), _names=names, _body=node.body):
+                if kw or len(args) != len(_names):
+                    raise Unsupported('lambda call arity')
+                inner = dict(_env)
+                inner.update(zip(_names, args))
+                return self.eval(_body, inner)
+            return FuncV('<lambda>', lam)
+        if isinstance(node, ast.Dict):
+            keys = []
+            for kx in node.keys:
+                if kx is None:
+                    raise Unsupported('dict unpacking in display')
+                kv = self.eval(kx, env)
+                if not (isinstance(kv, StrV) and kv.value is not None):
+                    raise Unsupported('non-literal dict key')
+                keys.append(kv.value)
+            return DictV(dict(zip(keys, [self.eval(vx, env) for vx in node.values])))
         raise Unsupported('expression %s' % type(node).__name__)
 
     def comprehension(self, node, env):
         """Comprehensions over concrete-length sequences are unrolled (element-wise closed form);
         anything else must be provided by the contract as a named closed form."""
-        hook = self.loops.get('comprehension@%d' % (node.lineno - self.x.node.lineno))
+        hook = self.loops.get('closed_form', {}).get(self.stmt_ordinals.get(id(node)))
         if hook is not None:
             return hook(self, env, node)
         if len(node.generators) != 1:
